@@ -326,6 +326,15 @@ class _Walker:
                 add = vals[-1].objs if fn.attr != "extend" else vals[-1].elts
                 self.add_elts(tgt.objs, add)
             return EMPTY
+        if not cands and isinstance(fn, ast.Attribute) and fn.attr in ("values", "items", "get") and not _np_root(fn):
+            # views of a dictionary: what they yield / return ARE the stored objects
+            tgt = self.ev(fn.value)
+            for a in node.args:
+                self.ev(a)
+            inner = set(tgt.elts) | {o + "[]" for o in tgt.objs}
+            if fn.attr == "get":
+                return Val(inner, (), (), tgt.ekinds)
+            return Val({self.new(node)}, inner, (), tgt.ekinds)
         if not cands:
             # numpy functions that may hand back THEIR ARGUMENT (no copy when it already is an array of the requested type)
             # or a view of it, and the `out=` convention (the result IS the out array)
